@@ -88,6 +88,42 @@ Proof. exact run_report_order_independent_repaired_lemma. Qed.
 Print Assumptions C36_run_report_order_independent_repaired.
 
 
+(* ---- incremental.Run with memory (slices with backing arrays, append, in-place Canonicalize): Run builds
+   its report in an array of its own.  canon is any Canonicalize that does not lengthen the list; spare
+   is any growth policy of append; the tasks are the memoised task slices living in heap h. ---- *)
+Theorem C36_run_report_leaves_task_diagnostics_unchanged : forall spare canon h tasks h' rep',
+  (forall l, length (canon l) <= length l)%nat -> Forall (task_old (length h)) tasks ->
+  run_heap spare canon h tasks = (h', rep') -> forall t, In t tasks -> read h' t = read h t.
+Proof. exact run_report_leaves_task_diagnostics_unchanged_lemma. Qed.
+Print Assumptions C36_run_report_leaves_task_diagnostics_unchanged.
+
+(* a second Run of the same queries on the same executor (nothing evicted) reports the same *)
+Theorem C36_run_heap_rerun_same : forall spare spare' canon h tasks h1 rep1 h2 rep2,
+  (forall l, length (canon l) <= length l)%nat -> Forall (task_old (length h)) tasks ->
+  run_heap spare canon h tasks = (h1, rep1) -> run_heap spare' canon h1 tasks = (h2, rep2) ->
+  read h2 rep2 = read h1 rep1.
+Proof. exact run_heap_rerun_same_lemma. Qed.
+Print Assumptions C36_run_heap_rerun_same.
+
+(* and what it reports is an outcome of the relational run_report on the task reports *)
+Theorem C36_run_heap_is_run_report : forall keep spare canon h tasks h' rep',
+  (forall l, canon_rel keep l (canon l)) -> (forall l, length (canon l) <= length l)%nat ->
+  Forall (task_old (length h)) tasks -> run_heap spare canon h tasks = (h', rep') ->
+  run_report keep (map (read h) tasks) (read h' rep').
+Proof. exact run_heap_is_run_report_lemma. Qed.
+Print Assumptions C36_run_heap_is_run_report.
+
+(* the variant that takes over the first task slice instead of copying it does overwrite that task *)
+Theorem C36_run_alias_changes_task :
+  Forall (task_old (length alias_heap)) alias_tasks /\
+  read alias_heap (mkslice (Some 0%nat) 5) = [sd 114; sd 115; sd 116; sd 117; sd 118] /\
+  read (fst (run_heap_alias (fun _ => 0%nat) (canonicalize false) alias_heap alias_tasks)) (mkslice (Some 0%nat) 5)
+    = [sd 97; sd 114; sd 115; sd 116; sd 117] /\
+  read (fst (run_heap (fun _ => 0%nat) (canonicalize false) alias_heap alias_tasks)) (mkslice (Some 0%nat) 5)
+    = [sd 114; sd 115; sd 116; sd 117; sd 118].
+Proof. exact run_alias_changes_task_lemma. Qed.
+Print Assumptions C36_run_alias_changes_task.
+
 (* non-vacuity: four diagnostics with one duplicate pair (same span, same tag), two input orders *)
 Example C36_nonvacuous :
   keys_injective [ex_1; ex_2; ex_3; ex_4] /\ no_sentinel [ex_1; ex_2; ex_3; ex_4] /\
